@@ -167,4 +167,10 @@ theorem req_is_intersection_every_connection (c : Client) (adv : List Bytes)
   rw [h.2.2] at this
   exact this
 
+
+/-- a configured SASL mechanism switches negotiation on, whatever the application left in the flag (`Client()`), so the
+client of such a configuration asks for `sasl` as soon as the server advertises it -/
+theorem sasl_switches_negotiation_on (cfg : Config) (h : cfg.sasl.isSome) : (clientConfig cfg).capNeg = true := by
+  simp [clientConfig, h]
+
 end Props.C19
